@@ -198,11 +198,77 @@ def spec_values(spec):
     return v.reshape(shape)
 
 
-def build(spec, da=None, attrs=None):
-    """DimArray from a spec (always hands ndarrays and Axis objects to the constructor)"""
+def warm(a, da=None):
+    """cache-populating *queries* (public API only): a history that must not change any later answer"""
     da = da or env.import_dimarray()
-    axes = [da.Axis(label_array(l), d) for l, d in zip(spec["labels"], spec["dims"])]
-    a = da.DimArray(spec_values(spec), axes=axes)
+    try:
+        a.labels
+        for ax in a.axes:
+            ax.is_monotonic()
+            v = ax.values
+            if len(v) and v.dtype.kind in "if":
+                ax.loc(slice(v[0], v[-1]))                                      # label slice lookup
+                ax.union(da.Axis(np.concatenate([v[::-1][:-1], [v.max() + 1]]), ax.name))   # the ordering query behind a + b / align
+            elif len(v):
+                ax.loc(v[0])
+            ax.size
+    except Exception:
+        pass
+    return a
+
+
+def build(spec, da=None, attrs=None):
+    """DimArray from a spec (always hands ndarrays and Axis objects to the constructor).
+
+    spec["hist"] optionally asks for a *history-laden* array with the same final values, labels and dims
+    (the reference models only look at those): {"mode": "warm"} queries after construction;
+    {"mode": "slice", "front": [...], "back": [...]} a positional slice of a larger, warmed, unsorted parent (the
+    values are then a non-contiguous view); {"mode": "relabel"} built with labels 0..n-1, warmed, then relabelled in
+    place with set_axis; {"mode": "transposed"} the transpose of an array stored in reversed dimension order."""
+    da = da or env.import_dimarray()
+    vals = spec_values(spec)
+    dims, labels = list(spec["dims"]), [list(l) for l in spec["labels"]]
+    hist = spec.get("hist") or {"mode": "none"}
+    mode = hist.get("mode", "none")
+    if not dims:
+        mode = "none" if mode in ("slice", "relabel", "transposed") else mode
+    if mode == "slice":
+        front = [list(f) for f in hist["front"]]
+        back = [list(b) for b in hist["back"]]
+        plabels = [f + l + b for f, l, b in zip(front, labels, back)]
+        pshape = tuple(len(l) for l in plabels)
+        if vals.dtype.kind == "O":
+            pv = np.empty(pshape, dtype=object)
+            pv[...] = "pad"
+        elif vals.dtype.kind == "b":
+            pv = np.zeros(pshape, dtype=bool)
+        else:
+            pv = (np.zeros(pshape, dtype=vals.dtype) - 777).astype(vals.dtype)
+        sl = tuple(slice(len(f), len(f) + len(l)) for f, l in zip(front, labels))
+        pv[sl] = vals
+        parent = da.DimArray(pv, axes=[da.Axis(label_array(l), d) for l, d in zip(plabels, dims)])
+        warm(parent, da)
+        a = parent.take(sl, indexing="position")      # (not .ix: it toggles under indexing.by='position')
+    elif mode == "relabel":
+        a = da.DimArray(vals, axes=[da.Axis(np.arange(len(l)), d) for l, d in zip(labels, dims)])
+        warm(a, da)
+        for d, l in zip(dims, labels):
+            if len(l):
+                a.set_axis(label_array(l), axis=d)
+    elif mode == "transposed":
+        parent = da.DimArray(np.ascontiguousarray(vals.transpose()), axes=[da.Axis(label_array(l), d) for l, d in zip(labels[::-1], dims[::-1])])
+        warm(parent, da)
+        a = parent.transpose(*dims)
+    else:
+        a = da.DimArray(vals, axes=[da.Axis(label_array(l), d) for l, d in zip(labels, dims)])
+        if mode == "warm":
+            warm(a, da)
+    if mode != "none":
+        # a history must never change what the array *is*: guard the harness itself
+        if tuple(a.dims) != tuple(dims) or a.values.shape != vals.shape:
+            env.harness_error("history-laden build changed dims/shape: %r" % (spec,))
+    for k in list(a.attrs.keys()):
+        del a.attrs[k]
     if spec.get("attrs"):
         a.attrs.update(copy.deepcopy(spec["attrs"]))
     if spec.get("axattrs"):
